@@ -86,6 +86,7 @@ func (run *FuncRun) enterLoopHeader(st *State, b *ssa.BasicBlock, ord int) bool 
 		return false
 	}
 	// first arrival: invariant holds on entry
+	fr.loopEntry[b.Index] = st.Snap()
 	env := run.loopEnv(st, b, ord)
 	for _, cl := range spec.Invariants {
 		goals := env.proveGoals(cl.Expr)
@@ -109,17 +110,31 @@ func (run *FuncRun) enterLoopHeader(st *State, b *ssa.BasicBlock, ord int) bool 
 		if hs.all {
 			fail("%s: loop %s has an assigns clause but calls code without a frame", run.key, lname)
 		}
-		for name, so := range hs.comps {
-			if _, ok := as.comps[name]; !ok {
-				as.comps[name] = so
+		// components the loop body cannot touch (statically) keep their version
+		st.newEpochKeeping(le, as, func(name string) bool {
+			if _, ok := hs.comps[name]; ok {
+				return false
 			}
-		}
-		run.havocAssignSet(st, le, as)
+			if _, ok := as.comps[name]; ok {
+				return false
+			}
+			return true
+		})
 	} else {
 		st.HavocAlloc()
 		for _, name := range sortedKeys(hs.comps) {
 			run.compSorts[name] = hs.comps[name]
 			st.HavocComp(name)
+		}
+		for _, name := range sortedKeys(hs.comps) {
+			if strings.HasPrefix(name, "MapCard:") {
+				domName := "MapDom:" + strings.TrimPrefix(name, "MapCard:")
+				if ds, ok := run.compSorts[domName]; ok {
+					for _, f := range run.mapVersionFacts(name, st.heap[name], st.H(domName, ds)) {
+						st.script.Add(f)
+					}
+				}
+			}
 		}
 	}
 	for a := range hs.locals {
